@@ -291,6 +291,23 @@ class StoreProbe(Q.QueueStorage):
         self.ann_ev.set()
 
 
+class _FrozenMap(collections.abc.Mapping):
+    """A Mapping that is not a dict and not mutable."""
+
+    def __init__(self, d):
+        self._d = dict(d)
+        self._order = list(d)
+
+    def __getitem__(self, k):
+        return self._d[k]
+
+    def __iter__(self):
+        return iter(self._order)
+
+    def __len__(self):
+        return len(self._d)
+
+
 class GatedRelay(Relay):
     """Scripted relay: every attempt logs its start, parks on a gate and is released by the
     scheduler with an outcome drawn from the case's profile."""
@@ -853,7 +870,16 @@ class Lab(object):
             p = self.cfg.get('map_omit_p', 0)
             if p and len(items) > 1 and rnd.random() < p:
                 del items[rnd.randrange(1, len(items)):]     # says nothing about some recipients
-            return kind, collections.OrderedDict(items)
+            d = collections.OrderedDict(items)
+            # "a dictionary" in the Relay.attempt contract is any mapping: a relay may hand out a read-only view
+            # or its own Mapping class; a sequence may be a tuple
+            v = rnd.random()
+            if v < 0.15:
+                import types
+                return kind, types.MappingProxyType(d)
+            if v < 0.25:
+                return kind, _FrozenMap(d)
+            return kind, d
         if kind == 'seq':
             out = [one() for r in rc]
             p = self.cfg.get('seq_len_p', 0)
@@ -862,7 +888,7 @@ class Lab(object):
                     out = out[:rnd.randrange(1, len(out))]          # shorter than the recipient list
                 else:
                     out = out + [one() for _ in range(rnd.randint(1, 2))]   # longer
-            return kind, out
+            return kind, (tuple(out) if rnd.random() < 0.25 else out)
         raise ValueError(kind)
 
     # ---- quiescence
@@ -1504,12 +1530,19 @@ def _expected_bounces(lab, H):
             kind, d = le[4], le[5]
             if kind in ('map', 'seq'):
                 groups = collections.OrderedDict()
+                unreported = []
                 for r in le[3]:
                     c, rep = d.get(r, ('A', None))
                     if c == 'T':
                         groups.setdefault(rep, []).append(r)
+                    elif c == 'A' and r not in unreported:
+                        unreported.append(r)
                 for rep, rs in groups.items():
                     exp[(m, frozenset(rs), rep[0], ('prefix', rep[1]))] += 1
+                if unreported:
+                    # recipients the last result said nothing about stay outstanding under a reply the queue makes
+                    # up itself (one reply for all of them): its wording is the queue's own, any 450 text
+                    exp[(m, frozenset(unreported), '450', None)] += 1
             elif kind == 'temp':
                 rep = d[le[3][0]][1]
                 exp[(m, frozenset(le[3]), rep[0], ('prefix', rep[1]))] += 1
@@ -1719,6 +1752,15 @@ def judge_c13(lab, H):
         for x in msgs:
             out.append(('extra-bounce', key[0], {'bounce': [key[0], sorted(key[1]), key[2], x],
                                                  'expected_same_recipients_and_code': [str(z) for z in want.get(key, [])]}))
+    # the queue's own wording is free, but it must not drift from one bounce to the next: over a whole history no
+    # quoted 4xx text may be a proper prefix of another one that continues with a repetition of its own tail (a
+    # note appended again and again to a shared reply object)
+    texts = sorted(set(msg for (m, rs, code, msg), k in got.items() if msg and code[:1] == '4'))
+    for a in texts:
+        for b in texts:
+            if a is not b and len(b) > len(a) and b.startswith(a) and a.endswith(b[len(a):]):
+                out.append(('bounce-reply-text-grows-from-bounce-to-bounce', None, {'shorter': a, 'longer': b}))
+                break
     enq = {}
     for e in lab.events:
         if e[1] == 'bounce_enqueued':
